@@ -6,7 +6,7 @@
 From GV Require Import Base.Prelude Gen.Tables Gen.TableChecks Lang.Lexer Lang.LexerProps
   Lang.PrintString Lang.PrintStringProps Lang.BlockString Lang.BlockStringProps
   Properties.BlockStringThms Lang.Ast Lang.Parser Lang.Unparse Lang.Wf Lang.ParserProps Lang.UnparseProps
-  Lang.WfProps Properties.ParserThms.
+  Lang.WfProps Properties.ParserThms Lang.Description Lang.DescriptionProps.
 
 (* For every text of Unicode scalar values, reading print_string's output (from the character
    after the opening quote, at offset pos, with anything following the closing quote) yields
@@ -63,6 +63,32 @@ Theorem C08_out_of_range_refuted : forall raw,
   block_value raw <> Ok [10] /\ block_value raw <> Ok [32; 97; 10; 32; 98].
 Proof. exact out_of_range_refuted. Qed.
 Print Assumptions C08_out_of_range_refuted.
+
+
+(* ---- a string value as the printer emits it (printer.leave_string_value; print_schema.print_description
+   chooses block = is_printable_as_block_string(value) and re-indents): for EVERY string of Unicode
+   scalar values, whichever form is chosen and under any blank re-indentation, the printed text lexes
+   back to one string token with exactly that value, spanning exactly the printed characters.
+   (An empty value printed in quoted form must not be followed by a quote.) ---- *)
+Theorem C08_quoted_token_roundtrip : forall (s rest : list N) (cu : cursor),
+  Forall (fun c => is_scalar c = true) s ->
+  (s = [] -> hd_error rest <> Some 34) ->
+  read_token cu (print_string s ++ rest) =
+  Ok (mk K_STRING cu (cpos cu) (cpos cu + length (print_string s))%nat (Some s),
+      mkCur (cpos cu + length (print_string s))%nat (cline cu) (cls cu), rest).
+Proof. exact print_string_token. Qed.
+Print Assumptions C08_quoted_token_roundtrip.
+
+Theorem C08_description_roundtrip : forall (v indent rest : list N) (cu : cursor),
+  Forall (fun c => is_scalar c = true) v ->
+  Forall (fun c => is_blank_char c = true) indent ->
+  (v = [] -> hd_error rest <> Some 34) ->
+  exists tk cu',
+    read_token cu (print_description_text v indent ++ rest) = Ok (tk, cu', rest) /\
+    thasval tk = true /\ tvalue tk = v /\ tstart tk = cpos cu /\
+    tend tk = (cpos cu + length (print_description_text v indent))%nat.
+Proof. exact description_roundtrip. Qed.
+Print Assumptions C08_description_roundtrip.
 
 (* ---- whole documents, values, types: token-level unparse then parse (proofs in Lang/UnparseProps.v) ----
    tokens_of is the token sequence that print_ast realises up to layout (tied by the correspondence).
